@@ -75,7 +75,7 @@ def scan_assumptions(text):
     return sorted(set(found))
 
 
-def build(repo, outdir, with_contracts=True, inferred=None, with_bt=True):
+def build(repo, outdir, with_contracts=True, inferred=None, with_bt=True, dropped_opt=None, only_bt=False):
     ex = extract_parser.extract(repo)
     prelude = open(os.path.join(VERIF, 'contracts/parser_prelude.rs')).read() + open(os.path.join(VERIF, 'contracts/parser_prelude_bt.rs')).read()
     stubs = open(os.path.join(VERIF, 'contracts/parser_stubs.rs')).read()
@@ -83,13 +83,27 @@ def build(repo, outdir, with_contracts=True, inferred=None, with_bt=True):
     if with_bt:
         top += open(os.path.join(VERIF, 'contracts/parser_top_bt.rs')).read()
     fns, loops = weave.parse_spec(open(os.path.join(VERIF, 'contracts/parser.spec')).read())
-    text, linemap, info = weave.assemble(ex, prelude, fns, loops, stubs, top, inferred, with_bt)
+    loops.dropped_optional = set(dropped_opt or ())
+    text, linemap, info = weave.assemble(ex, prelude, fns, loops, stubs, top, inferred, with_bt, only_bt)
+    info['optional_clauses_dropped'] = sorted(loops.dropped_optional)
     info['tree_builder_in_unit'] = with_bt
     os.makedirs(outdir, exist_ok=True)
-    unit = os.path.join(outdir, 'unit.rs')
+    unit = os.path.join(outdir, 'unit_bt.rs' if only_bt else 'unit.rs')
     open(unit, 'w').write(text)
     json.dump(linemap, open(os.path.join(outdir, 'LINEMAP.json'), 'w'))
     return ex, fns, loops, text, linemap, info, unit
+
+
+def optional_failures(text, res):
+    """ids of optional clauses (marked `/*@opt:ID*/` on their line) whose proof failed in this run"""
+    ulines = text.split('\n')
+    newly = set()
+    for f in res['failures']:
+        if f['line'] and (f['message'].startswith('postcondition') or 'post-condition of closure' in f['message']):
+            om = re.search(r'/\*@(opt:[^*]+)\*/', ulines[f['line'] - 1])
+            if om:
+                newly.add(om.group(1))
+    return newly
 
 
 def verify_with_inference(repo, outdir):
@@ -100,9 +114,24 @@ def verify_with_inference(repo, outdir):
     inferred = None
     log = []
     with_bt, bt_note = True, None
-    for rnd in range(14):
+    dropped_opt = set()
+    # phase 0: optional clauses live in the tree-builder part only; prune them on the reduced unit (seconds per round)
+    for rnd in range(12):
         try:
-            ex, fns, loops, text, linemap, info, unit = build(repo, outdir, True, inferred, with_bt)
+            ex, fns, loops, text, linemap, info, unit = build(repo, outdir, True, None, True, dropped_opt, only_bt=True)
+            if ex.get('build_tree_unextractable'):
+                break
+            res = verus(unit, multiple_errors=20)
+        except (Undecided, AnchorLost, weave.SpecError):
+            break
+        newly = optional_failures(text, res)
+        if not newly:
+            break
+        dropped_opt |= newly
+        log.append('tree-builder unit, round %d: optional clauses not established by the code, dropped: %s' % (rnd, sorted(newly)))
+    for rnd in range(20):
+        try:
+            ex, fns, loops, text, linemap, info, unit = build(repo, outdir, True, inferred, with_bt, dropped_opt)
             if with_bt and ex.get('build_tree_unextractable'):
                 raise Undecided('Parser::build_tree is not of the shape the rewrites R11/R12 expect: %s' % ex['build_tree_unextractable'])
             res = verus(unit, multiple_errors=30 if inferred is not None else 10)
@@ -113,9 +142,16 @@ def verify_with_inference(repo, outdir):
             # Parser::build_tree is then covered by the bounded Kani harnesses only (and reported so)
             with_bt, bt_note = False, str(e)[:600]
             log.append('tree builder left out of the Verus unit: %s' % bt_note)
-            ex, fns, loops, text, linemap, info, unit = build(repo, outdir, True, inferred, with_bt)
+            ex, fns, loops, text, linemap, info, unit = build(repo, outdir, True, inferred, with_bt, dropped_opt)
             res = verus(unit, multiple_errors=30 if inferred is not None else 10)
         info['tree_builder_fallback_reason'] = bt_note
+        # optional clauses (contracts/parser.spec `ensures_optional`) that the body does not establish are dropped and the
+        # unit is verified again: they only exist so that one function can be written through another
+        newly = optional_failures(text, res)
+        if newly:
+            dropped_opt |= newly
+            log.append('round %d: optional clauses not established by the code, dropped: %s' % (rnd, sorted(newly)))
+            continue
         if not info['defaulted']:
             break
         if inferred is None:
